@@ -329,3 +329,68 @@ Proof.
   rewrite K. reflexivity.
 Qed.
 
+
+(* ---- the hypotheses are satisfiable (non-vacuity of the theorems above) ------------------------- *)
+
+(* a ':'-free injective "hash": two letters A..P per byte *)
+Definition hexenc (s : str) : str := flat_map (fun c => [c / 16 + 65; c mod 16 + 65]) s.
+
+Lemma hexenc_inj : forall a b, hexenc a = hexenc b -> a = b.
+Proof.
+  induction a as [|c a IH]; intros [|c' b] E; unfold hexenc in E; cbn [flat_map app] in E; try discriminate; [reflexivity|].
+  fold (hexenc a) in E. fold (hexenc b) in E.
+  injection E as E1 E2 E3. f_equal; [|apply IH; exact E3].
+  apply N.add_cancel_r in E1, E2.
+  transitivity (16 * (c / 16) + c mod 16); [apply N.div_mod; lia|].
+  rewrite E1, E2. symmetry. apply N.div_mod. lia.
+Qed.
+
+Lemma hexenc_nocolon a : no_colon (hexenc a).
+Proof.
+  unfold no_colon, colon. induction a as [|c a IH]; [intros []|].
+  unfold hexenc. cbn [flat_map app In]. fold (hexenc a).
+  intros [E|[E|E]]; [revert E; generalize (c / 16); intros; lia|revert E; generalize (c mod 16); intros; lia|exact (IH E)].
+Qed.
+
+(* a prefix-free injective "quote": a double quote, the length in unary, a 0, the text *)
+Definition uquote (s : str) : str := dquote :: repeat 1 (length s) ++ 0 :: s.
+
+Lemma repeat_sep : forall n m (r r' : str), repeat 1 n ++ 0 :: r = repeat 1 m ++ 0 :: r' -> n = m /\ r = r'.
+Proof.
+  induction n as [|n IH]; intros [|m] r r' E; cbn in E; try discriminate.
+  - inversion E. auto.
+  - inversion E as [E']. destruct (IH m r r' E') as [-> ->]. auto.
+Qed.
+
+Lemma app_inv_length {A} : forall (a b x y : list A), length a = length b -> a ++ x = b ++ y -> a = b /\ x = y.
+Proof.
+  induction a as [|c a IH]; intros [|c' b] x y L E; cbn in *; try discriminate; [auto|].
+  inversion E as [[E1 E2]]. destruct (IH b x y ltac:(lia) E2) as [-> ->]. auto.
+Qed.
+
+Lemma uquote_ok : quote_ok uquote.
+Proof.
+  split.
+  - intros a b x y E. unfold uquote in E. cbn [app] in E. inversion E as [E'].
+    rewrite <- !app_assoc in E'. cbn [app] in E'. apply repeat_sep in E' as [L E'].
+    apply (app_inv_length a b x y L E').
+  - intro a. eexists. reflexivity.
+Qed.
+
+Definition udec (n : N) : str := repeat 49 (N.to_nat n).
+
+Lemma udec_inj a b : udec a = udec b -> a = b.
+Proof.
+  unfold udec. intro E. apply (f_equal (@length N)) in E. rewrite !repeat_length in E. lia.
+Qed.
+
+Lemma hypotheses_satisfiable :
+  exists H quote dec, hash_ok H /\ quote_ok quote /\ (forall a b : N, dec a = dec b -> a = b) /\
+    (* and with them a concrete pair of distinct expanded-postings items gets distinct keys *)
+    key_of H quote dec true (IExpanded [48] [mkM MEq [97] [98; 59; 99]] []) <>
+    key_of H quote dec true (IExpanded [48] [mkM MEq [97] [98]; mkM MEq [99] []] []).
+Proof.
+  exists hexenc, uquote, udec. split; [split; [exact hexenc_inj|exact hexenc_nocolon]|].
+  split; [exact uquote_ok|]. split; [exact udec_inj|].
+  vm_compute. discriminate.
+Qed.
